@@ -875,7 +875,11 @@ def replaceNonsenseWithNones(data: np.ndarray, paramName: str) -> np.ndarray:
     if np.issubdtype(data.dtype, np.floating):
         isNone = np.isnan(data)
     elif np.issubdtype(data.dtype, np.integer):
-        isNone = data == np.iinfo(data.dtype).min + 2
+        if np.issubdtype(data.dtype, np.unsignedinteger):
+            # unsigned types use max-2 in NONE_MAP (min+2 == 2 is a perfectly meaningful value)
+            isNone = data == np.iinfo(data.dtype).max - 2
+        else:
+            isNone = data == np.iinfo(data.dtype).min + 2
     elif np.issubdtype(data.dtype, np.str_):
         isNone = data == "<!None!>"
     else:
